@@ -51,6 +51,18 @@ func init() {
 					e.Emit(engine.Case{Kind: "c07same:" + o, Leg: "identical/" + o, A: t, B: t})
 				}
 			}
+			// start from non-initial states: a, b or both are the live values a caller holds after Patch
+			lv7 := c04LiveDocs()
+			lk7 := thin(Keyed(2, false), 60)
+			for _, mode := range liveModes {
+				for _, con := range []string{"none", "SET", "replace:none", "leaf:none", "leaf:SET", "leaf:SETKEYS:id"} {
+					for _, o := range []string{"none", "SET", "MULTISET"} {
+						pairs(e, liveKind("c07", mode, con, o), "live-"+mode+"/"+con+"->"+o, lv7, lv7)
+					}
+					// SetKeys(id) only where every array member carries a unique id
+					pairs(e, liveKind("c07", mode, con, "SETKEYS:id"), "live-"+mode+"/"+con+"->SETKEYS:id", lk7, lk7)
+				}
+			}
 			// merge mode needs a null-free b (null means delete); a may hold nulls
 			withNulls := thin(noVoid(U(4)), 400)
 			pairs(e, "c07:MERGE", "a-with-nulls/MERGE", withNulls, nullFree(withNulls))
@@ -117,13 +129,22 @@ func runC07(c *engine.Case) engine.Result {
 	if strings.HasPrefix(c.Kind, "c07same:") {
 		return runC07Same(c)
 	}
-	o := impl.Options(optOf(c.Kind))
+	optName := optOf(c.Kind)
+	_, _, lopt, _, _, isLive := liveOperands(c.Kind, "null", "null")
+	if isLive {
+		optName = lopt
+	}
+	o := impl.Options(optName)
 	res := engine.Result{}
 	var fail, text string
 	nh := 0
 	p := impl.Guard(func() {
 		aV, bV := ref.MustParse(c.A), ref.MustParse(c.B)
-		d := impl.Read(c.A).Diff(impl.Read(c.B), o.Opts...)
+		na, nb := impl.Read(c.A), impl.Read(c.B)
+		if isLive {
+			na, nb, _, _, _, _ = liveOperands(c.Kind, c.A, c.B)
+		}
+		d := na.Diff(nb, o.Opts...)
 		res.Transitions++
 		text = d.Render()
 		nh = len(d)
